@@ -261,7 +261,9 @@ func (p ParsedScript) IsPushOnly() bool {
 func (p ParsedScript) removeOpcodeByData(data []byte) ParsedScript {
 	retScript := make(ParsedScript, 0, len(p))
 	for _, pop := range p {
-		if !pop.canonicalPush() || !bytes.Contains(pop.Data, data) {
+		// only a push of exactly the signature is removed (FindAndDelete matches the
+		// serialised push), not every push that happens to contain its bytes
+		if !pop.canonicalPush() || !bytes.Equal(pop.Data, data) {
 			retScript = append(retScript, pop)
 		}
 	}
